@@ -2,6 +2,7 @@ import MokapotVerif.Wire
 import MokapotVerif.Model.Digest
 import MokapotVerif.Model.DigestPat
 import MokapotVerif.Model.DigestZero
+import MokapotVerif.Model.DigestMulti
 /-!
 Driver glue for `Model/Digest.lean`.
 
@@ -29,6 +30,17 @@ Zero-width rules (`Model/DigestZero.lean`): `lbPos lbCls laPos laCls` = `(?<=lbC
     digestz     lbPos lbCls laPos laCls <seq> mc lo hi clip semi   → [qPEP …]   (model)
     digestspecz lbPos lbCls laPos laCls <seq> mc lo hi clip semi   → [qPEP …]   (enumeration of `DigestSpecZ`: the code as it is)
     digestspeczi …                                                 → [qPEP …]   (enumeration of `DigestSpecZI`: the property text)
+
+Any regex (`Model/DigestMulti.lean`): the match ends are part of the request; a list that is not weakly
+increasing or exceeds `len(seq)` is refused (`reject-ends`: the hypotheses of `C17_digestM_mem_iff_spec`):
+
+    sitesm      [ends …] <seq>                                     → [0 3 3 7 9]
+    digestm     [ends …] <seq> mc lo hi clip semi                  → [qPEP …]   (model `digestM`)
+    digestspecm [ends …] <seq> mc lo hi clip semi                  → [qPEP …]   (enumeration of `DigestSpecM`)
+    digestint   [ends …] <seq> mc lo hi clip semi                  → [qPEP …]   (model `digestInt`: mc, lo, hi may be negative)
+    digestspecms [ends …] <seq> mc lo hi clip semi                 → [qPEP …]   (enumeration of `DigestSpecMS`: positions as a set;
+                                                                                 only for strictly increasing positive ends)
+    matchatp    [cls …] laPos laCls <seq>                          → [T F …]    (`matchAt` at every position 0 … len(seq))
 -/
 namespace Mk.Ops
 open Mk V
@@ -140,6 +152,60 @@ def digestZArgs (f : EnzymeZ → List Char → Nat → Nat → Nat → Bool → 
       some (ofList ofRes (f e seq mc lo hi clip semi))
   | _ => none
 
+def opSitesM : List V → Option V
+  | [es, s] => do
+      let ends ← toList? toNat? es
+      let seq ← toRes? s
+      if endsOk ends seq.length then some (ofList ofNat (cleavageSitesM ends seq.length))
+      else some (atom "reject-ends")
+  | _ => none
+
+def digestMArgs (f : List Nat → List Char → Nat → Nat → Nat → Bool → Bool → List Pep) : List V → Option V
+  | [es, s, mc, lo, hi, clip, semi] => do
+      let ends ← toList? toNat? es
+      let seq ← toRes? s
+      let mc ← toNat? mc
+      let lo ← toNat? lo
+      let hi ← toNat? hi
+      let clip ← toBool? clip
+      let semi ← toBool? semi
+      if endsOk ends seq.length then some (ofList ofRes (f ends seq mc lo hi clip semi))
+      else some (atom "reject-ends")
+  | _ => none
+
+def opDigestInt : List V → Option V
+  | [es, s, mc, lo, hi, clip, semi] => do
+      let ends ← toList? toNat? es
+      let seq ← toRes? s
+      let mc ← toInt? mc
+      let lo ← toInt? lo
+      let hi ← toInt? hi
+      let clip ← toBool? clip
+      let semi ← toBool? semi
+      if endsOk ends seq.length then some (ofList ofRes (digestInt ends seq mc lo hi clip semi))
+      else some (atom "reject-ends")
+  | _ => none
+
+def opDigestSpecMS : List V → Option V
+  | [es, s, mc, lo, hi, clip, semi] => do
+      let ends ← toList? toNat? es
+      let seq ← toRes? s
+      let mc ← toNat? mc
+      let lo ← toNat? lo
+      let hi ← toNat? hi
+      let clip ← toBool? clip
+      let semi ← toBool? semi
+      if endsStrict ends seq.length then some (ofList ofRes (specListMSet ends seq mc lo hi clip semi))
+      else some (atom "reject-ends")
+  | _ => none
+
+def opMatchAtP : List V → Option V
+  | [cs, pos, la, s] => do
+      let e ← toPattern? cs pos la
+      let seq ← toRes? s
+      some (ofList ofBool ((List.range (seq.length + 1)).map (matchAt e seq)))
+  | _ => none
+
 end Mk.Ops.Digest
 
 namespace Mk.Ops
@@ -151,6 +217,9 @@ def digestOps : List (String × (List V → Option V)) :=
    ("sitesp", Digest.opSitesP), ("digestp", Digest.digestPArgs digestP),
    ("digestspecp", Digest.digestPArgs specListP),
    ("sitesz", Digest.opSitesZ), ("digestz", Digest.digestZArgs digestZ),
-   ("digestspecz", Digest.digestZArgs specListZ), ("digestspeczi", Digest.digestZArgs specListZI)]
+   ("digestspecz", Digest.digestZArgs specListZ), ("digestspeczi", Digest.digestZArgs specListZI),
+   ("sitesm", Digest.opSitesM), ("digestm", Digest.digestMArgs digestM),
+   ("digestspecm", Digest.digestMArgs specListM), ("digestint", Digest.opDigestInt),
+   ("digestspecms", Digest.opDigestSpecMS), ("matchatp", Digest.opMatchAtP)]
 
 end Mk.Ops
